@@ -109,7 +109,32 @@ fn enumerate_c02(
             counter: rec.counter,
         };
         tally.points += 1;
-        match eval_point(&p) {
+        let mut result = eval_point(&p);
+        if dircheck {
+            // C11 judges two things only: nothing a recovery needs was deleted, nothing dead is kept
+            result = match result {
+                Err(e) if e.contains("directory differs") => Err(e),
+                Err(e) => {
+                    // differential oracle: put every removed WAL/table file back; if the recovery is
+                    // then correct, the database had deleted a file that crash recovery still needed
+                    let img = Arc::new(MemFs::from_journal_keep_removed(&p.journal, p.k));
+                    let accept: Vec<Model> = p.accept.iter().map(|m| m.iter().cloned().collect()).collect();
+                    let mut plan = p.plan.clone();
+                    plan.dircheck = false;
+                    match check_recovery(img, p.cfg, &accept, &p.universe, &plan, p.counter) {
+                        Ok(_) => Err(format!(
+                            "a file that crash recovery still needed had been deleted: the crash image fails ({e}) but recovers correctly when the WAL/table files removed before the crash are put back"
+                        )),
+                        Err(_) => {
+                            *tally.classes.entry("crash_failure_not_caused_by_a_deletion_(C02s_business)".into()).or_insert(0) += 1;
+                            Ok(PointInfo::default())
+                        }
+                    }
+                }
+                ok => ok,
+            };
+        }
+        match result {
             Ok(info) => {
                 // non-trivial: strictly inside an API call or background work, with acknowledged data
                 let a = rec.acked(k);
